@@ -5,7 +5,7 @@
    After importing this file, ['M[R]_n] is a matrix algebra over the
    [comRingType] (indeed [fieldType]) [R], and the ring operations are
    convertible to [Rplus], [Rmult], [Ropp], [R0], [R1]. *)
-Require Import Rdefinitions Raxioms RIneq Rbasic_fun.
+Require Import Rdefinitions Raxioms RIneq Rbasic_fun Rfunctions.
 Require Import Epsilon FunctionalExtensionality.
 From mathcomp Require Import all_ssreflect all_algebra.
 Set Implicit Arguments. Unset Strict Implicit. Unset Printing Implicit Defensive.
